@@ -12,3 +12,8 @@ func ShortLog(s string) string                      { return shortLog(s) }
 func (w *World) StepNo() int                        { return w.stepNo }
 func (w *World) BumpStep() int                      { w.stepNo++; return w.stepNo }
 func (w *World) SignerOf(digest, sig []byte) string { return w.signerOf(digest, sig) }
+
+func DecScaled(d sdk.Dec, scale int64) interface{} { return decScaled(d, scale) }
+func HolderAddr(n *Names, name string) string      { return holderAddr(n, name) }
+
+func (w *World) HolderName(addr string) string { return w.holderName(addr) }
